@@ -164,8 +164,8 @@ Theorem C10_compile_quote : forall (bname : N -> text) f l tail d (s : vm), heap
 Proof. exact compile_quote_reads. Qed.
 Print Assumptions C10_compile_quote.
 
-(* OPEN (not proved in this form; checked in-kernel on the examples below and on every case of
-   wire interface 8 by the correspondence check): evaluating (quote d) on the machine BOOTED
+(* OPEN only up to the MODEL's fuels (checked in-kernel on the examples below and on every case
+   of wire interface 8 by the correspondence check): evaluating (quote d) on the machine BOOTED
    with the prelude returns d.
    PROVED (C10_quote_eval_vm, C10_quote_eval_vm_outcome, C10_quote_eval_vm_empty below): the
    same for EVERY machine state satisfying the invariant [minv] of C01 — in particular the
@@ -173,12 +173,18 @@ Print Assumptions C10_compile_quote.
    (quote d) alone (proved, on every machine), compile_runnable / put_lambda succeed, the run
    through PUSH Argc 0 / MOV / CALL / ENTER / MOV_IMMEDIATE / RET / HALT reaches the HALT exit,
    and the final conversion yields d unless the fuel of the model's get_as_cell runs out.
-   STILL OPEN: (1) [minv] of the booted machine (the interning invariant of the heap, injective
-   global slots and sp < capacity after compiling and running the whole prelude: not proved);
-   (2) the fuel premise of the final conversion ([halt_result m <> RNoFuel], or no pointer
-   chains in the heap and rcost d <= heap size + 1): the model's get_as_cell carries a fuel that
-   the Rust does not have (docs/WP-c01b.md R1), and heap size + 1 is not always enough
-   (C01_cell_fuel_insufficient); (3) that the fixed EVAL_FUEL of eval_cell is sufficient. *)
+   PROVED (work package c01d; C10_quote_eval_vm_booted, C10_quote_eval_vm_session,
+   C10_quote_eval_cell_booted at the end of the (quote d) block): [minv] of the booted machine and
+   of every state of a session started from it (C01_booted_minv / C01_session_minv: by
+   preservation of finv /\ J through load_builtins and the evaluation of every prelude form,
+   without evaluating [booted]); hence the statement below holds on the booted machine UP TO
+   NoFuel: eval_cell (quote_form d) s0 is RNoFuel or ROk (Done d) s1.
+   STILL OPEN (model artefacts, not marwood issues): (2) the fuel premise of the final conversion
+   ([halt_result m <> RNoFuel], or no pointer chains in the heap and rcost d <= heap size + 1):
+   the model's get_as_cell carries a fuel that the Rust does not have (docs/WP-c01b.md R1), and
+   heap size + 1 is not always enough (C01_cell_fuel_insufficient); (3) that the fixed EVAL_FUEL
+   of eval_cell is sufficient (the run takes a constant number of instructions n; the theorem
+   gives "for every fuel >= n" without computing n). *)
 From MW Require Import Model.VmBase Model.Vm Model.Builtins Model.WireDatum.
 From MW Require Import Proofs.RunProofs Proofs.CompileCorrect Proofs.CellFuelProofs Proofs.FragmentCorollaries.
 Definition C10_quote_eval_vm_stmt : Prop :=
@@ -244,6 +250,44 @@ Example C10_example_quote_eval_vm_empty :
   | _ => False
   end.
 Proof. cbv zeta. split; [exact qex_heap_datum|]. split; [apply minv_vm_empty; reflexivity|exact qex_run]. Qed.
+
+(* work package c01d: the premise [minv] discharged for the BOOTED machine (C01_booted_minv) and
+   for every state of a session started from it (any number of Vm::eval calls with any data,
+   fuels and outcomes: FlatAll.evals) *)
+From MW Require Proofs.FlatAll Proofs.BootMinv Proofs.BootCorollaries.
+Theorem C10_quote_eval_vm_session : forall (ob : N -> M vcell) d s0 s,
+  booted = Some s0 -> FlatAll.evals s0 s -> heap_datum d ->
+  exists n m, cext s m /\ sp m = sp s /\ bp m = bp s /\ ep m = ep s /\ out_log m = out_log s /\
+    (forall fuel, (n <= fuel)%nat -> eval ob fuel (quote_of d) s = halt_result m) /\
+    (halt_result m <> RNoFuel \/ (no_ptr_cells (hp m) /\ (rcost (RDatum d) <= cell_fuel m)%nat) ->
+     forall fuel, (n <= fuel)%nat ->
+       eval ob fuel (quote_of d) s = ROk (Done d) (with_stack m tempty (sp m))).
+Proof. exact BootCorollaries.quote_eval_vm_session. Qed.
+Print Assumptions C10_quote_eval_vm_session.
+Theorem C10_quote_eval_vm_booted : forall (ob : N -> M vcell) d s, booted = Some s -> heap_datum d ->
+  exists n m, cext s m /\ sp m = sp s /\ bp m = bp s /\ ep m = ep s /\ out_log m = out_log s /\
+    (forall fuel, (n <= fuel)%nat -> eval ob fuel (quote_of d) s = halt_result m) /\
+    (halt_result m <> RNoFuel \/ (no_ptr_cells (hp m) /\ (rcost (RDatum d) <= cell_fuel m)%nat) ->
+     forall fuel, (n <= fuel)%nat ->
+       eval ob fuel (quote_of d) s = ROk (Done d) (with_stack m tempty (sp m))).
+Proof. exact BootCorollaries.quote_eval_vm_booted. Qed.
+Print Assumptions C10_quote_eval_vm_booted.
+(* the body of C10_quote_eval_vm_stmt up to the model's fuels: never an error, a panic or
+   another datum *)
+Theorem C10_quote_eval_cell_booted : forall s0 d, booted = Some s0 -> heap_datum d ->
+  eval_cell (quote_form d) s0 = RNoFuel \/ exists s1, eval_cell (quote_form d) s0 = ROk (Done d) s1.
+Proof. intros s0 d B Hd. exact (BootCorollaries.quote_eval_cell_booted d s0 B Hd). Qed.
+Print Assumptions C10_quote_eval_cell_booted.
+(* non-vacuity (never a statement that matches on [booted]): the boot sequence without the
+   prelude text — load_builtins over the whole generated table from vm_empty 8192 — yields a
+   machine satisfying minv, and the model computes (quote d) to d there *)
+Example C10_example_quote_eval_vm_builtins :
+  exists s, boot_with [] = Some s /\ heap_datum qex_datum /\ minv s /\
+    match eval other_builtin 100 (quote_of qex_datum) s with
+    | ROk (Done c) s' => c = qex_datum /\ sp s' = 0 /\ bp s' = 0 /\ ep s' = USIZE_MAX
+    | _ => False
+    end.
+Proof. exact BootCorollaries.qb_example. Qed.
 
 (* ------------------------------------------------ the recorded defect class *)
 (* prefix-path-symbol: the reader produces, through the number-prefix path, a symbol
